@@ -67,18 +67,23 @@ Fixpoint somes (l : list (option nat)) : list nat :=
   match l with [] => [] | Some x :: r => x :: somes r | None :: r => somes r end.
 
 (* ------------------------------------------------------------------------------------------------ cgio *)
-(* get_cgnsio(cgio_num, 0): "if (--cgio_num < 0 || cgio_num >= num_iolist) return NULL" -- nothing else is tested: a slot
-   whose type is CGIO_FILE_NONE (closed) is returned like any other *)
-Definition get_cgnsio (s : io) (c : nat) : bool :=
-  match c with O => false | S c1 => c1 <? length (iol s) end.
-
 (* what the slot holds: the file index inside iolist[c-1].rootid, None for a slot of type CGIO_FILE_NONE *)
 Definition cgio_resolve (s : io) (c : nat) : option nat :=
   match c with O => None | S c1 => nth c1 (iol s) None end.
 
-(* cgio_get_file_type / cgio_get_root_id / cgio_release_id: get_cgnsio, then no look at the type: status 0 for every
-   number get_cgnsio accepts *)
-Definition cgio_get_file_type_ok (s : io) (c : nat) : bool := get_cgnsio s c.
+(* get_cgnsio(cgio_num, 0), current text (/repo 137980e):
+     if (--cgio_num < 0 || cgio_num >= num_iolist) -> CGIO_ERR_BAD_CGIO, NULL
+     if (iolist[cgio_num].type == CGIO_FILE_NONE)  -> CGIO_ERR_BAD_CGIO, NULL     "a slot whose file has been closed" *)
+Definition get_cgnsio (s : io) (c : nat) : bool :=
+  match c with
+  | O => false
+  | S c1 => (c1 <? length (iol s)) && match nth c1 (iol s) None with Some _ => true | None => false end
+  end.
+
+(* the getter before 137980e: the range test only -- a slot of type CGIO_FILE_NONE was returned like any other, and
+   cgio_get_file_type / cgio_get_root_id / cgio_release_id, which do not look at the type, answered status 0 for it *)
+Definition get_cgnsio_old (s : io) (c : nat) : bool :=
+  match c with O => false | S c1 => c1 <? length (iol s) end.
 
 (* ------------------------------------------------------------------------------------------------ ADF *)
 (* ADFI_ID_2_file_block_offset: the file index is read out of the ID; "if (file_index >= maximum_files)
